@@ -122,13 +122,16 @@ func loadProgram(repo string, pkgDirs []string, trustedDir string) (*Program, er
 		for _, f := range files {
 			cs, err := parseContractFile(f, "")
 			if err != nil {
-				return P, err
+				// a broken spec file is skipped and recorded: fatal only for the property whose id is in its file name
+				// (its contracts then miss their externs), never for the others
+				P.FileErrs[f] = err.Error()
+				continue
 			}
 			for _, c := range cs {
 				c.Trusted = true
 			}
 			if err := P.addContracts(cs); err != nil {
-				return P, err
+				P.FileErrs[f] = err.Error()
 			}
 		}
 	}
